@@ -1268,6 +1268,52 @@ where
     Ok(())
 }
 
+/// Elides, in the trailer section at the END of `kawa.blocks`, every field
+/// whose name sozu owns on the request path: `X-Forwarded-For`, `Forwarded`,
+/// `X-Real-IP`, `X-Request-Id` and the listener's correlation header
+/// (`sozu_id_header`, default `Sozu-Id`).
+///
+/// These fields are rewritten or injected by
+/// `HttpContext::on_request_headers` on the header section only. A trailer
+/// section is never seen by that callback: an HTTP/1.1 client could put
+/// `X-Forwarded-For: <spoofed>` or `Sozu-Id: <spoofed>` in a chunked trailer,
+/// an HTTP/2 client a trailer named like the correlation header (which
+/// `handle_trailer`, not knowing the listener's name, cannot drop), and a
+/// backend that merges trailers into its header view would see the spoofed
+/// value (RFC 9110 §6.5 forbids routing/attribution fields in trailers).
+///
+/// The scan runs backwards from the end: one closing `Flags` block is
+/// skipped, then consecutive `Header` blocks are checked; it stops at the
+/// first other block (the `end_body` / `end_header` flags that precede the
+/// trailer section), so header-section fields are never touched. Callers
+/// invoke it right after the parser appended trailer fields.
+pub(super) fn elide_proxy_owned_trailers(kawa: &mut GenericHttpStream, sozu_id_header: &[u8]) {
+    let buf = kawa.storage.buffer();
+    let mut closing_flags_skipped = false;
+    for block in kawa.blocks.iter_mut().rev() {
+        match block {
+            Block::Flags(_) if !closing_flags_skipped => closing_flags_skipped = true,
+            Block::Header(header) => {
+                closing_flags_skipped = true;
+                if header.is_elided() {
+                    continue;
+                }
+                let key = header.key.data(buf);
+                if compare_no_case(key, b"x-forwarded-for")
+                    || compare_no_case(key, b"forwarded")
+                    || compare_no_case(key, b"x-real-ip")
+                    || compare_no_case(key, b"x-request-id")
+                    || compare_no_case(key, sozu_id_header)
+                {
+                    header.elide();
+                    incr!(names::h2::TRAILER_SPOOF_VECTOR_ELIDED);
+                }
+            }
+            _ => break,
+        }
+    }
+}
+
 /// Decode an H2 trailer HEADERS frame and append the validated trailer
 /// pairs to `kawa.blocks`.
 ///
